@@ -15,7 +15,9 @@ import decimal
 SCALARS = [2.5, 2.45, 2.55, 2.54, 1.234, 12.0, -0.05, float('inf'), 3, True, None, 'ab', b'ab', 'a.b',
            fractions.Fraction(1, 3), fractions.Fraction(3, 10), fractions.Fraction(31, 2), decimal.Decimal('2.45'), decimal.Decimal('2.54'),
            2.45 + 0j, 2.54 + 0j]
-ELEMS = [(2.45, 'ab'), (2.54, 'ab'), (2.55, 3), (1.234, 1.2), (3, True), (12.0, None)]
+# (for every tolerance used there are two element pairs that differ only in a float and collapse under it: 2.45/2.46 at
+# tol 1, 2.54/2.6 at tol 0, 12.0/14.0 at tol -1 -- a relational oracle sees a missing rounding only through such a pair)
+ELEMS = [(2.45, 'ab'), (2.54, 'ab'), (2.55, 3), (1.234, 1.2), (3, True), (12.0, None), (2.46, 'ab'), (2.6, 'ab'), (14.0, None)]
 
 
 def containers(elems):
@@ -36,6 +38,7 @@ def values(tier):
         ('nested', ([2.54], {'q': 2.45})), ('nested', ([2.45], {'q': 2.54})), ('nested', {'k': {'j': 1.234}}),
         ('nested', [(1.234, [1.2, {'z': 2.55}])]), ('nested', {3: [2.45]}), ('nested', [NT(2.45, [2.54])]),
         ('nested', ['ab', ['a.b', b'ab']]),
+        ('nested', {'k': [2.6]}), ('nested', ([2.6], {'q': 2.46})), ('nested', {'k': {'j': 1.2341}}), ('nested', [NT(2.46, [2.6])]),
     ]
     out += nested
     if tier == 'thorough':
